@@ -7,7 +7,7 @@ from harness.gamma import NA, Palette
 ROWID = Palette("rowid", "int", list(range(64)), has_na=False, full_dtype=int)
 ROWID_F = ROWID  # the row id may come back as float after NA filling; alpha uses ==
 
-KEY_PALETTES = [gamma.FLOAT_INF, gamma.FLOAT_BIG, gamma.FLOAT_HUGE, gamma.INT_SMALL, gamma.INT_BIG, gamma.UINT8,
+KEY_PALETTES = [gamma.FLOAT_INF, gamma.FLOAT_BIG, gamma.FLOAT_HUGE, gamma.FLOAT_HASH, gamma.INT_SMALL, gamma.INT_BIG, gamma.INT_HASH, gamma.UINT8,
                 gamma.STR_SHORT, gamma.STR_LONG, gamma.STR_MIXED, gamma.STR_FIXED, gamma.STR_ASTRAL,
                 gamma.DATE, gamma.DATETIME, gamma.TIMEDELTA, gamma.BOOL, gamma.BOOL_OBJ, gamma.BYTES,
                 gamma.OBJ_INT]
@@ -52,7 +52,7 @@ def observe(out, pals):
     return {"cols": cols, "cell": cell}
 
 
-NUMERIC_MIX = [gamma.INT_BIG, gamma.FLOAT_INF, gamma.FLOAT_BIG, gamma.INT_SMALL, gamma.UINT8]
+NUMERIC_MIX = [gamma.INT_BIG, gamma.FLOAT_INF, gamma.FLOAT_BIG, gamma.INT_SMALL, gamma.UINT8, gamma.INT_HASH, gamma.FLOAT_HASH]
 
 
 def choose_palettes(rng, fr, names, pool=None):
@@ -68,6 +68,14 @@ def choose_palettes(rng, fr, names, pool=None):
             ok = [p for p in ok if p in NUMERIC_MIX] or ok
         res[c] = rng.choice(ok)
     return res
+
+
+def with_twins(rng, fr, names=("k", "j")):
+    """The same frame with some cells of class 1 replaced by their twin (cell 3: -0.0 next to 0.0 in float/inf)."""
+    cell = {c: list(v) for c, v in fr["cell"].items()}
+    for c in names:
+        cell[c] = [3 if (x == 2 and rng.random() < 0.5) else x for x in cell[c]]
+    return {"cols": fr["cols"], "cell": cell}
 
 
 def random_frame(rng, nrows, names=("k", "j"), nvals=3, p_na=0.2):
